@@ -151,7 +151,7 @@ struct Ctx {
 
 /// The TIP-911 view of a stake set (ordered stake list and its dense Merkle root) is a function of the set's contents: the same
 /// documents put into independently built sets, in different insertion orders, give the same list and the same root.
-fn tip911_view(run: &Run) {
+pub fn tip911_view(run: &Run) {
     use tip911_stakeset::StakeSet;
     let doc = |k: u8, start: u64, end: u64, syms: u128| StakeDoc { pubkey: key(k).0, e_start: start, e_post_end: end, syms_staked: CoinValue(syms) };
     let mut families: Vec<(String, Vec<(TxHash, StakeDoc)>)> = vec![];
@@ -176,6 +176,28 @@ fn tip911_view(run: &Run) {
                 .collect();
             run.transition();
             run.validated();
+            // the two totals of the view are the voting power of this epoch and of the next one (C13: a key's voting power in an
+            // epoch is the sum of its registered stakes with start <= epoch < end), and the list is ordered by size, then by hash
+            let active = |e: u64| -> u128 { docs.iter().filter(|(_, d)| d.e_start <= e && e < d.e_post_end).map(|(_, d)| d.syms_staked.0).sum() };
+            for (which, got, want) in [("current", views[0].2 .0, active(epoch)), ("next", views[0].3 .0, active(epoch + 1))] {
+                if got != want {
+                    run.violation(
+                        "C13",
+                        format!("tip911-total-differs/{}", which),
+                        format!("{} at epoch {}: the TIP-911 view reports {} as the {} epoch's voting power, the registered stakes add up to {}", name, epoch, got, which, want),
+                        json!({"family": name, "epoch": epoch, "which": which}),
+                    );
+                }
+            }
+            {
+                let by_hash: std::collections::BTreeMap<TxHash, u128> = docs.iter().map(|(h, d)| (*h, d.syms_staked.0)).collect();
+                let order: Vec<(u128, TxHash)> = views[0].0.iter().map(|h| (by_hash.get(h).copied().unwrap_or(0), *h)).collect();
+                let mut sorted = order.clone();
+                sorted.sort();
+                if order != sorted || order.len() != by_hash.len() {
+                    run.violation("C13", "tip911-order-differs".into(), format!("{} at epoch {}: the TIP-911 list is not the registered stakes ordered by size, then by transaction hash", name, epoch), json!({"family": name, "epoch": epoch}));
+                }
+            }
             if views.iter().any(|v| *v != views[0]) {
                 run.violation(
                     "C07",
@@ -529,6 +551,25 @@ pub fn run(run: &Run) {
     mn2.cfg.seal_actions = vec![None];
     scs.push(mn2);
     scs.extend(genesis_scenarios(["custom02-genesis-sym-feepool-stake", "custom02-genesis-erg-fees-stakes", "custom02-genesis-huge-mel-feepool"], NetID::Custom02, &pools, if thorough { 6 } else { 4 }));
+    // blocks of three to five transactions under the dense transaction tree (a size that is not a power of two pads the last level:
+    // seed C07-r12-1 carried an unpaired node up unchanged) - one transfer per denomination and the two faucets, no pairs
+    {
+        let mut dense = base.clone();
+        dense.per_denom = 1;
+        dense.splits = false;
+        dense.burns = false;
+        dense.mints = false;
+        dense.overpay = false;
+        dense.max_txs_per_block = 5;
+        dense.seal_actions = vec![None];
+        scs.push(sc("custom08-blocks-of-up-to-five", NetID::Custom08, 0, dense, 7));
+    }
+    // a fee pool beyond 2^120 (seed C07-r12-2: the header reported min(fee pool, 2^120))
+    {
+        let mut big = sc("custom02-genesis-feepool-beyond-2^120", NetID::Custom02, 0, base.clone(), 4);
+        big.genesis = 4;
+        scs.push(big);
+    }
     if thorough {
         scs.push(sc("mainnet-utxo", NetID::Mainnet, 0, base.clone(), 6));
         scs.push(sc("custom02-fees", NetID::Custom02, 65536, base, 6));
